@@ -141,3 +141,6 @@ CONTRACTS['rout_efficiency#global'] = Contract(
              ('argument-untouched', "unchanged('D')")])
 CONTRACTS['rout_efficiency#global'].callees = {'distance_wei_floyd': _cfc('distance_wei_floyd', ['adjacency', 'transform'], list(_FWC.requires), [e for e in _FWC.ensures if e[0] != 'argument-untouched'],
                                                                           [('mat', 'n0', 'n0'), ('mat', 'n0', 'n0'), ('imat', 'n0', 'n0')], ghosts={'n0': 'len(adjacency)'})}
+
+for _k in ('distance_wei_floyd', 'distance_wei_floyd:inv', 'distance_wei_floyd:paths'):
+    CONTRACTS[_k].inputs = [('adjacency', 'G0', 'mat', 'n0c')]       # lets a solver counter-model be replayed on the real function
